@@ -28,6 +28,9 @@ func rawSubjectOf(dn map[string]string, shape string) []byte {
 		if shape == "missingST" && a == "ST" {
 			continue
 		}
+		if shape == "emptyST" && a == "ST" {
+			v = "" // present, with an empty value
+		}
 		if shape == "multiRDN" && a == "OU" {
 			continue // written inside the multi-valued RDN below
 		}
@@ -114,11 +117,12 @@ func setupDN(fx *vfixture, d *DNIn, vc vcase) {
 			fx.identities = append(fx.identities, fmt.Sprintf("did.example:signer-%d", i))
 		case "x509":
 			fx.identities = append(fx.identities, "x509.subject:"+[]string{" ", ""}[int(salt)%2]+renderDN(map[string]string(id.DN), salt+uint32(i)*5))
-		case "badDupAttr", "badMissingC", "badGarbage", "badEmptyValue":
+		case "badDupAttr", "badMissingC", "badGarbage", "badEmptyValue", "badEmptyMandatory":
 			// an identity nobody can interpret; no validated policy carries one, so the list is put into the document AFTER
 			// the verifier was built (buildAndVerify)
 			fx.identities = append(fx.identities, map[string]string{"badDupAttr": "x509.subject: C=US, ST=WA, O=Acme, OU=a, OU=b", "badMissingC": "x509.subject: ST=WA, O=Acme",
-				"badGarbage": "x509.subject: this is not a distinguished name", "badEmptyValue": "x509.subject:"}[id.Kind])
+				"badGarbage": "x509.subject: this is not a distinguished name", "badEmptyValue": "x509.subject:",
+				"badEmptyMandatory": "x509.subject: C=US, ST=, O=Acme"}[id.Kind])
 			fx.injectIdentities = true
 		default:
 			panic("unknown identity kind " + id.Kind)
